@@ -90,6 +90,7 @@ class Variant:
     expr: Optional[str] = None  # None: implicit discriminant
     rename: Optional[str] = None
     attrs: list = field(default_factory=list)  # foreign attributes (text lines)
+    rename_text: Optional[str] = None  # literal spelling of the rename string (default: rust_str(rename))
 
     @property
     def name(self) -> str:
@@ -153,7 +154,7 @@ class Decl:
             for a in v.attrs:
                 lines.append("    " + a)
             if v.rename is not None and with_tool_attrs:
-                lines.append("    #[enum_tools(rename = %s)]" % rust_str(v.rename))
+                lines.append("    #[enum_tools(rename = %s)]" % (v.rename_text or rust_str(v.rename)))
             if v.expr is None:
                 lines.append("    %s," % v.ident)
             else:
